@@ -27,6 +27,12 @@ import (
 // completed.
 var ErrTimeout = dtlserrors.ErrNetBufferTimeout
 
+// maxBufferedPackets bounds what the buffer holds for a reader that does not
+// keep up. Packets arriving beyond it are dropped, as a full socket buffer
+// drops datagrams: whoever may send to the socket must not be able to make the
+// process hold an arbitrary amount of memory.
+const maxBufferedPackets = 2048
+
 // AddrPacket is a packet payload and the associated remote address from which
 // it was received.
 type AddrPacket struct {
@@ -75,6 +81,12 @@ func (b *PacketBuffer) WriteTo(pkt []byte, addr net.Addr) (int, error) {
 		b.mutex.Unlock()
 
 		return 0, io.ErrClosedPipe
+	}
+
+	if b.full && len(b.packets) >= maxBufferedPackets {
+		b.mutex.Unlock()
+
+		return len(pkt), nil
 	}
 
 	var notify chan struct{}
